@@ -230,6 +230,18 @@ func (s *Store) Del(t backend.FileType, name string) {
 	delete(s.files, Key{t, name})
 }
 
+// DropLocks removes all lock files: what `restic unlock` does once the process that
+// wrote them is dead (locks of dead processes on the same host are stale).
+func (s *Store) DropLocks() {
+	s.mu.Lock()
+	defer s.mu.Unlock()
+	for k := range s.files {
+		if k.Type == backend.LockFile {
+			delete(s.files, k)
+		}
+	}
+}
+
 // Digest is a hash over the complete state (names and contents).
 func (s *Store) Digest() string {
 	s.mu.Lock()
